@@ -255,56 +255,52 @@ pub fn c04_t15_88<N: Nd>(nd: &mut N) {
     eq!(m.stations[0].mmsi, d, 40, 30, "C04 t15 station 1 mmsi");
     assert!(m.stations[0].messages.len() == 1, "C04 t15/88: one request");
     eq!(m.stations[0].messages[0].message_type, d, 70, 6, "C04 t15 request 1.1 type");
-    if let Some(o) = m.stations[0].messages[0].slot_offset {
-        eq!(o, d, 76, 12, "C04 t15 request 1.1 slot offset");
-    }
+    assert!(m.stations[0].messages[0].slot_offset.unwrap_or(0) as u64 == bits(&d, 76, 12), "C04 t15 request 1.1 slot offset (0 = absent)");
     crate::cover!(m.stations[0].messages[0].slot_offset == Some(4095), "t15/88 values reachable");
 }
 
-/// type 15, 110 bits (112 with byte padding): one station, two requests
+/// type 15, 110 bits (112 with byte padding): one station, one or two requests (an all-zero second request is padding)
 pub fn c04_t15_110<N: Nd>(nd: &mut N) {
     use ais::messages::interrogation::Interrogation;
     let d: [u8; 14] = nd.bytes();
-    // the second request is present (an all-zero second request is indistinguishable from padding)
-    nd.assume(bits(&d, 90, 6) != 0);
+    let second = bits(&d, 90, 6) != 0 || bits(&d, 96, 12) != 0;
     let m = must!(Interrogation::parse(&d), "C04: a 110-bit type 15 payload must decode");
     eq!(m.mmsi, d, 8, 30, "C04 t15 mmsi");
     assert!(m.stations.len() == 1, "C04 t15/110: one station");
     eq!(m.stations[0].mmsi, d, 40, 30, "C04 t15 station 1 mmsi");
-    assert!(m.stations[0].messages.len() == 2, "C04 t15/110: two requests");
+    assert!(m.stations[0].messages.len() == if second { 2 } else { 1 }, "C04 t15/110: second request reported iff present");
     eq!(m.stations[0].messages[0].message_type, d, 70, 6, "C04 t15 request 1.1 type");
-    if let Some(o) = m.stations[0].messages[0].slot_offset {
-        eq!(o, d, 76, 12, "C04 t15 request 1.1 slot offset");
+    assert!(m.stations[0].messages[0].slot_offset.unwrap_or(0) as u64 == bits(&d, 76, 12), "C04 t15 request 1.1 slot offset");
+    if second {
+        eq!(m.stations[0].messages[1].message_type, d, 90, 6, "C04 t15 request 1.2 type");
+        assert!(m.stations[0].messages[1].slot_offset.unwrap_or(0) as u64 == bits(&d, 96, 12), "C04 t15 request 1.2 slot offset");
     }
-    eq!(m.stations[0].messages[1].message_type, d, 90, 6, "C04 t15 request 1.2 type");
-    if let Some(o) = m.stations[0].messages[1].slot_offset {
-        eq!(o, d, 96, 12, "C04 t15 request 1.2 slot offset");
-    }
-    crate::cover!(m.stations[0].messages[1].slot_offset == Some(1), "t15/110 values reachable");
+    crate::cover!(second && m.stations[0].messages[1].slot_offset == Some(1), "t15/110 two requests reachable");
+    crate::cover!(!second, "t15/110 unused second request reachable");
 }
 
-/// type 15, 160 bits: two stations (first with two requests, second with one)
+/// type 15, 160 bits: two stations (first with one or two requests, second with one)
 pub fn c04_t15_160<N: Nd>(nd: &mut N) {
     use ais::messages::interrogation::Interrogation;
     let d: [u8; 20] = nd.bytes();
-    nd.assume(bits(&d, 90, 6) != 0);
+    let second = bits(&d, 90, 6) != 0 || bits(&d, 96, 12) != 0;
     let m = must!(Interrogation::parse(&d), "C04: a 160-bit type 15 payload must decode");
     eq!(m.mmsi, d, 8, 30, "C04 t15 mmsi");
     assert!(m.stations.len() == 2, "C04 t15/160: two stations");
     eq!(m.stations[0].mmsi, d, 40, 30, "C04 t15 station 1 mmsi");
-    assert!(m.stations[0].messages.len() == 2, "C04 t15/160: two requests for station 1");
+    assert!(m.stations[0].messages.len() == if second { 2 } else { 1 }, "C04 t15/160: second request of station 1 reported iff present");
     eq!(m.stations[0].messages[0].message_type, d, 70, 6, "C04 t15 request 1.1 type");
-    eq!(m.stations[0].messages[1].message_type, d, 90, 6, "C04 t15 request 1.2 type");
-    if let Some(o) = m.stations[0].messages[1].slot_offset {
-        eq!(o, d, 96, 12, "C04 t15 request 1.2 slot offset");
+    assert!(m.stations[0].messages[0].slot_offset.unwrap_or(0) as u64 == bits(&d, 76, 12), "C04 t15 request 1.1 slot offset");
+    if second {
+        eq!(m.stations[0].messages[1].message_type, d, 90, 6, "C04 t15 request 1.2 type");
+        assert!(m.stations[0].messages[1].slot_offset.unwrap_or(0) as u64 == bits(&d, 96, 12), "C04 t15 request 1.2 slot offset");
     }
     eq!(m.stations[1].mmsi, d, 110, 30, "C04 t15 station 2 mmsi");
     assert!(m.stations[1].messages.len() >= 1, "C04 t15/160: a request for station 2");
     eq!(m.stations[1].messages[0].message_type, d, 140, 6, "C04 t15 request 2.1 type");
-    if let Some(o) = m.stations[1].messages[0].slot_offset {
-        eq!(o, d, 146, 12, "C04 t15 request 2.1 slot offset");
-    }
-    crate::cover!(m.stations[1].mmsi == 333_333_333, "t15/160 values reachable");
+    assert!(m.stations[1].messages[0].slot_offset.unwrap_or(0) as u64 == bits(&d, 146, 12), "C04 t15 request 2.1 slot offset");
+    crate::cover!(second && m.stations[1].mmsi == 333_333_333, "t15/160 two requests reachable");
+    crate::cover!(!second && m.stations[1].mmsi == 1, "t15/160 unused second request reachable");
 }
 
 /// type 16, 96 bits: one assignment
